@@ -472,6 +472,25 @@ func extractCmdClass(t *T) (string, error) {
 	}
 	deleteViaDeleteDB = strings.Contains(normSrc(func() string { b, _ := t.ReadFile(sqfile); return b }()), "return db.DeleteDB(dir, userID)")
 
+
+	// Backend.RemoveUser: close the user; unregister it; only then remove the files (which may fail)
+	unregBeforeFiles := false
+	if fd := FuncDecl(bf, "Backend", "RemoveUser"); fd != nil {
+		var closePos, delPos, filesPos token.Pos
+		for _, st := range fd.Body.List {
+			src := normSrc(t.Src(bfile, st))
+			switch {
+			case strings.HasPrefix(src, "if err := user.close(ctx); err != nil {") && strings.Contains(src, "return fmt.Errorf("):
+				closePos = st.Pos()
+			case src == "delete(b.users, userID)":
+				delPos = st.Pos()
+			case strings.HasPrefix(src, "if removeFiles {"):
+				filesPos = st.Pos()
+			}
+		}
+		unregBeforeFiles = closePos != token.NoPos && delPos != token.NoPos && filesPos != token.NoPos && closePos < delPos && delPos < filesPos
+	}
+
 	var sb strings.Builder
 	sb.WriteString("From Coq Require Import List String NArith Bool.\nImport ListNotations.\nLocal Open Scope string_scope.\n\n")
 	sb.WriteString("Inductive hclass := HAny | HNotAuth | HAuth | HSelected | HOther.\n\n")
@@ -512,6 +531,8 @@ func extractCmdClass(t *T) (string, error) {
 	sb.WriteString("Definition jail_timer_resets_counter : bool := " + coqBool(timerResets) + ".\n")
 	sb.WriteString("Definition state_created_for_authorised_user : bool := " + coqBool(stateOfAuthorised) + ".\n")
 	sb.WriteString("Definition per_user_store_and_database : bool := " + coqBool(perUser) + ".\n")
+	sb.WriteString("(* Backend.RemoveUser: user.close, then delete(b.users, userID), then (removeFiles) the removal of the files *)\n")
+	sb.WriteString("Definition remove_user_unregisters_before_files : bool := " + coqBool(unregBeforeFiles) + ".\n")
 	sb.WriteString("(* the files of a user: db.DeleteDB (RemoveUser with removeFiles) and the SQLite database path / URI *)\n")
 	sb.WriteString("Definition delete_db_uses_pattern : bool := " + coqBool(ddPattern) + ".\n")
 	sfx := make([]string, len(ddSuffixes))
